@@ -409,6 +409,10 @@ def match_known(known, prop, signature):
 
 def write_evidence(prop, tier, seed, level, coverage, wall, violations, assumptions):
     d = os.path.join(VERIF, "evidence")
+    if os.path.realpath(REPO) != "/repo":
+        # a run against a scratch worktree (mutation / seeded change) must not overwrite the evidence
+        # of /repo itself
+        d = os.path.join(tempfile.gettempdir(), "verif-evidence-" + os.path.basename(os.path.realpath(REPO)))
     os.makedirs(d, exist_ok=True)
     ev = {
         "property_id": prop, "tier": tier, "seed": int(seed), "level": level,
